@@ -57,6 +57,10 @@ SPECS = [
   [sub('worker.go', "w.pool.Len() > minIdleWorkers {", "w.pool.Len() != minIdleWorkers {")]),
  ('R24', ['C14'], 'revert of fix 66196b0: the context listener is spawned before the status store', 'a context that is already cancelled when the worker starts',
   [sub('worker.go', "\tdefer w.goListenToContext()\n\tdefer w.status.Store(running)\n\n\tw.goEventLoop()\n\tw.goRemoveIdleWorkers()\n", "\tdefer w.status.Store(running)\n\n\tw.goEventLoop()\n\tw.goRemoveIdleWorkers()\n\tw.goListenToContext()\n")]),
+ ('R25', ['C14'], 'revert of fix 8503b28 (Resume part): Resume stores Running after its check', 'the context listener stops a paused worker between Resume\'s check and its store',
+  [sub('worker.go', "\t\tif w.status.CompareAndSwap(paused, running) {\n\t\t\tbreak\n\t\t}\n", "\t\tw.status.Store(running)\n\t\tbreak\n")]),
+ ('R26', ['C06'], 'revert of fix fa7eeb9: Stop does not wake the WaitUntilFinished callers', 'a Resume slips into a Stop in progress and is followed by WaitUntilFinished before Stop stores Stopped',
+  [sub('worker.go', "\tdefer func() { w.releaseWaiters(w.curProcessing.Load()) }()\n", "")]),
  ('E01', [], 'EQUIVALENT: incCompleted after notify in the completion path, bigger initial FIFO segment', 'nothing: the checks must stay quiet',
   [sub('worker.go', "\t\tw.metrics.incCompleted()\n\t\tw.notifyToPullNextJobs()\n", "\t\tw.notifyToPullNextJobs()\n\t\tw.metrics.incCompleted()\n"),
    sub('internal/queues/queue.go', "initialBufferCapacity = 1024 ", "initialBufferCapacity = 2048 ")]),
